@@ -89,7 +89,10 @@ def corpus(tier):
               for e, v in (("0 ? 1 ? 2 : 3 : 4", 4), ("1 ? 0 ? 2 : 3 : 4", 3), ("1 ? 1 ? 2 : 3 : 4", 2), ("0 ? 2 : 1 ? 3 : 4", 3), ("0 ? 2 : 0 ? 3 : 4", 4))]
     # recorded known finding: only string literals are set aside before macro substitution, character constants are not
     charmac = [{"source": "#define A 5\nunsigned char c;\nvoid main() { c = 'A'; }\n", "args": ["-O0"], "expect": {"panic": False, "must_compile": True, "stdout_contains": "LDA #65"}, "note": "'A' with a macro named A"}]
-    return [("kf-macro-name-in-a-character-constant", ["C09"], charmac), ("kf-calc-nested-conditional", ["C10"], nested[:1]), ("calc-nested-conditional", ["C10"], nested[1:]), ("kf-user-label-named-like-a-generated-label", ["C13"], userlab), ("literal-extent", ["C09"], u_strscan.candidates(None)), ("literal-in-a-table", ["C09"], u_tablelit.candidates(None)), ("character-constants", ["C09"], chars), ("macro-forms", ["C08", "C07"], macros), ("constant-destinations-rejected", ["C13", "C01"], rejected), ("error-locations", ["C06"], loc), ("error-locations-inside-a-statement", ["C06"], multi), ("no-panic", ["C16"], nopanic)]
+    # recorded known finding: goto targets and user labels are not checked against each other
+    gotos = [{"source": "void main() { goto foo; }\n", "args": ["-O0"], "expect": {"panic": False, "is_error": True}, "note": "goto to a label that does not exist"},
+             {"source": "void main() { foo: X = 1; foo: X = 2; goto foo; }\n", "args": ["-O0"], "expect": {"panic": False, "is_error": True}, "note": "a label defined twice"}]
+    return [("kf-goto-labels-not-checked", ["C13"], gotos), ("kf-macro-name-in-a-character-constant", ["C09"], charmac), ("kf-calc-nested-conditional", ["C10"], nested[:1]), ("calc-nested-conditional", ["C10"], nested[1:]), ("kf-user-label-named-like-a-generated-label", ["C13"], userlab), ("literal-extent", ["C09"], u_strscan.candidates(None)), ("literal-in-a-table", ["C09"], u_tablelit.candidates(None)), ("character-constants", ["C09"], chars), ("macro-forms", ["C08", "C07"], macros), ("constant-destinations-rejected", ["C13", "C01"], rejected), ("error-locations", ["C06"], loc), ("error-locations-inside-a-statement", ["C06"], multi), ("no-panic", ["C16"], nopanic)]
 
 
 def build(repo):
